@@ -2,6 +2,14 @@ from . import rules_rep, rules_hash, rules_c02, inputs
 from spec import geometry as G
 
 
+def self_controls(prog, facts):
+    from . import perturb
+
+    def rule(c, p2):
+        rules_rep.check_c05(c, p2, inputs.make_interp(p2, fuel=40000000), True)
+    return perturb.run_controls([('seen-twice threshold 3',
+                                  lambda f: perturb.perturb_int(f, 'hash_history_contains_hash_twice', 2, 3, ty='usize'), rule, 'C05.4')], facts)
+
 def run(ctx, prog, facts, tier):
     I = inputs.make_interp(prog, fuel=40000000)
     rules_rep.check_c05(ctx, prog, I, tier == 'quick')
